@@ -401,6 +401,79 @@ def rule_r6(ctx, sf: SqlFacts) -> RuleResult:
     return rr
 
 
+CASE_METHODS = {"lower", "upper", "capitalize", "title", "casefold", "swapcase"}
+
+
+def _short_slice(e: ast.AST) -> bool:
+    """x[0], x[:1], x[0:1] -- at most the first character."""
+    if not isinstance(e, ast.Subscript):
+        return False
+    sl = e.slice
+    if isinstance(sl, ast.Constant) and sl.value == 0:
+        return True
+    if isinstance(sl, ast.Slice):
+        lo = sl.lower.value if isinstance(sl.lower, ast.Constant) else (0 if sl.lower is None else None)
+        hi = sl.upper.value if isinstance(sl.upper, ast.Constant) else None
+        return lo == 0 and hi == 1 and sl.step is None
+    return False
+
+
+def _case_altering(e: ast.AST):
+    """first call inside e that changes letter case of more than the first
+    character of its receiver and whose value is part of e's value"""
+    for n in ast.walk(e):
+        if isinstance(n, ast.Call) and isinstance(n.func, ast.Attribute) and n.func.attr in CASE_METHODS:
+            if not _short_slice(n.func.value):
+                return n
+    return None
+
+
+def rule_r7(ctx, sf: SqlFacts) -> RuleResult:
+    """Titles are case-sensitive except for the first letter: the values that
+    are bound into the lookup/insert statements derive from `title` only through
+    operations that do not change the case of characters after the first."""
+    rr = RuleResult("C10.R7", "stored and looked-up titles are case-preserving beyond the first letter", min_instances=4)
+    for fnname in ("core.Wtp.get_page", "core.Wtp.add_page"):
+        fn = ctx.fn(fnname)
+        stmts = [s for s in sf.in_function(fnname) if s.table == "pages" and s.bound is not None]
+        if not stmts:
+            raise AnalysisError(fnname + ": no parameterised statement on pages")
+        assigns: dict = {}
+        for n in walk_no_nested(fn):
+            if isinstance(n, ast.Assign):
+                for t in n.targets:
+                    if isinstance(t, ast.Name):
+                        assigns.setdefault(t.id, []).append(n.value)
+            elif isinstance(n, ast.AnnAssign) and isinstance(n.target, ast.Name) and n.value is not None:
+                assigns.setdefault(n.target.id, []).append(n.value)
+            elif isinstance(n, ast.AugAssign) and isinstance(n.target, ast.Name):
+                assigns.setdefault(n.target.id, []).append(n.value)
+            elif isinstance(n, ast.Call) and isinstance(n.func, ast.Attribute) and n.func.attr in ("append", "extend", "insert") \
+                    and isinstance(n.func.value, ast.Name):
+                for a in n.args:
+                    assigns.setdefault(n.func.value.id, []).append(a)
+        seen, work = set(), []
+        for s in stmts:
+            work.extend(x.id for x in ast.walk(s.bound) if isinstance(x, ast.Name))
+        while work:
+            v = work.pop()
+            if v in seen:
+                continue
+            seen.add(v)
+            for e in assigns.get(v, []):
+                bad = _case_altering(e)
+                if bad is not None:
+                    rr.bad(Finding("C10.R7", CORE, fnname, "{} = {}".format(v, unparse(e)),
+                                   "`{}` changes letter case beyond the first character of a value that reaches the SQL "
+                                   "statement; titles differing only in later letters would collide or be missed".format(unparse(bad)),
+                                   e.lineno))
+                else:
+                    rr.ok(fnname, "{} = {}".format(v, unparse(e))[:90], {"fn": fnname, "var": v, "expr": unparse(e)[:80]})
+                work.extend(x.id for x in ast.walk(e) if isinstance(x, ast.Name))
+    return rr
+
+
 def run(ctx) -> list:
     sf = SqlFacts(ctx.index)
-    return [rule_r1(ctx, sf), rule_r2(ctx, sf), rule_r3(ctx, sf), rule_r4(ctx, sf), rule_r5(ctx, sf), rule_r6(ctx, sf)]
+    return [rule_r1(ctx, sf), rule_r2(ctx, sf), rule_r3(ctx, sf), rule_r4(ctx, sf), rule_r5(ctx, sf), rule_r6(ctx, sf),
+            rule_r7(ctx, sf)]
